@@ -19,16 +19,20 @@
 (*                  c2*(A-E)^n <= (c2-c1)*2^(W*n) <= c2*(A+E)^n            *)
 (*               which says |A - 2^W*(1-c)^(1/n)| <= E.                    *)
 (*               "as Substrate computes it" is IEEE double arithmetic      *)
-(*               (division, 1-c, powf, 1-x); E bounds its error:           *)
-(*               |fl(c)-c| <= 2^-53 for c1,c2 < 2^53, 1-fl(c) adds at most *)
-(*               2^-54, and x |-> x^(1/n) has derivative                   *)
-(*               <= (1/n) * x^(1/n-1) <= 1/x on (0,1], so the error in     *)
-(*               (1-c)^(1/n) is at most 2^-52/(1-c) + a few ulp.           *)
-(*               Tol = 2^(W-49) + 2^(W-51)*ceil(c2/(c2-c1)) is generous    *)
-(*               by a factor >= 4 and still decides everything coarser     *)
-(*               than 2^-44 relative for ordinary c.  This is why the      *)
-(*               property is checked PARTIALLY: the last ~50 bits of the   *)
-(*               128 are not pinned by any TLA+ definition.                *)
+(*               (c = c1/c2, 1-c, powf(1-c, 1/n), 1-x); E bounds its       *)
+(*               error for c1 <= c2 < 2^31 (exact conversions): 1-fl(c) is *)
+(*               within 2^-52 of 1-c; x |-> x^(1/n) has derivative         *)
+(*               (1/n) x^(1/n-1) <= 1/x on (0,1], so that error grows to   *)
+(*               at most 2^-52/(1-c); exp(log(x)/n) adds at most           *)
+(*               2^-52*(|ln(1-c)|+2) <= 2^-52*(1/(1-c)+2) relative, the    *)
+(*               rounding of 1/n at most 2^-49, the final 1-x 2^-54.       *)
+(*               With q = ceil(c2/(c2-c1)) >= 1/(1-c) the sum is below     *)
+(*               2^-50*q + 2^-47, hence                                    *)
+(*                  Tol = 2^(W-47) + 2^(W-50)*q      (W = 128).            *)
+(*               For ordinary c (q small) this still decides everything    *)
+(*               coarser than 2^-43 relative.  This is why the property is *)
+(*               checked PARTIALLY: the last ~47 bits of the 128 are not   *)
+(*               pinned by any TLA+ definition.                            *)
 (*  Saturated    (S2) c1 = c2 => T = 2^W - 1.                              *)
 (*  Monotone     (S3) c <= c' (cross multiplication) => T <= T' for equal  *)
 (*               n; in particular equal ratios give equal thresholds.      *)
@@ -38,9 +42,11 @@
 (***************************************************************************)
 EXTENDS BabeNat, TLC
 
-(* 2^k as a BabeNat number, by squaring-free repeated doubling of digits   *)
+(* 2^k as a BabeNat number (square and double; any NatBase > 2)            *)
 RECURSIVE BmPow2(_)
-BmPow2(k) == IF k = 0 THEN <<1>> ELSE BnMulDigit(BmPow2(k - 1), 2)
+BmPow2(k) == IF k = 0 THEN <<1>>
+             ELSE IF k % 2 = 0 THEN LET h == BmPow2(k \div 2) IN BnMul(h, h)
+             ELSE BnMulDigit(BmPow2(k - 1), 2)
 
 (* TLC integer (< 2^31) to BabeNat *)
 BmN(k) == BnFromInt(k)
@@ -48,7 +54,7 @@ BmN(k) == BnFromInt(k)
 (* tolerance on A = 2^W - T, see header *)
 BmTol(c1, c2, W) ==
   LET q == (c2 + (c2 - c1) - 1) \div (c2 - c1)      \* ceil(c2 / (c2-c1)), c1 < c2
-  IN BnAdd(BmPow2(W - 49), BnMul(BmPow2(W - 51), BmN(q)))
+  IN BnAdd(BmPow2(W - 47), BnMul(BmPow2(W - 50), BmN(q)))
 
 (* (S1) T is a BabeNat number, c1 < c2, n >= 1, E a BabeNat tolerance *)
 BmBracket(c1, c2, n, T, W, E) ==
